@@ -40,7 +40,7 @@ pub fn derive(input: &Input) -> TokenStream {
     ).collect::<Vec<_>>();
 
     let vec_with_capacity = input.map_fields_nested_or(
-        |_, field_type| quote! { <#field_type as StructOfArray>::Type::with_capacity(capacity) },
+        |_, field_type| quote! { <#field_type as ::soa_derive::StructOfArray>::Type::with_capacity(capacity) },
         |_, _| quote! { Vec::with_capacity(capacity) },
     ).collect::<Vec<_>>();
 
